@@ -788,7 +788,7 @@ func genBatch(prop string, g *Gen, m *Model, rng *SplitMix) []Cmd {
 	case "C13":
 		nw := 1 + rng.Intn(2)
 		for i := 0; i < nw; i++ {
-			switch rng.Intn(6) {
+			switch rng.Intn(7) {
 			case 0:
 				cmds = append(cmds, Cmd{Op: "compact"})
 			case 1:
@@ -797,6 +797,11 @@ func genBatch(prop string, g *Gen, m *Model, rng *SplitMix) []Cmd {
 				cmds = append(cmds, Cmd{Op: "prune", Yes: true})
 			case 3:
 				cmds = append(cmds, Cmd{Op: "claim", Agent: agent()})
+			case 4, 6:
+				// an event that is mostly text (multi-byte when the sample's text
+				// class says so): a reader that arrives in the middle of this
+				// append sees a line cut inside the text
+				cmds = append(cmds, Cmd{Op: "new_task", Mode: "json", Title: sp(g.text("title")), Body: sp(g.text("body") + " " + g.text("body"))})
 			default:
 				cmds = append(cmds, mutation())
 			}
@@ -999,8 +1004,8 @@ func genBatch(prop string, g *Gen, m *Model, rng *SplitMix) []Cmd {
 		// ones: set --json and claim <id> re-read the store once they are done)
 		t := taskRef()
 		var first Cmd
-		switch rng.Intn(8) {
-		case 7:
+		switch rng.Intn(9) {
+		case 7, 8:
 			// the oldest-ready claim, and somebody finishing and pruning the very
 			// task it takes while it is still composing its reply
 			first = Cmd{Op: "claim", Agent: agent()}
@@ -1099,7 +1104,7 @@ func runConcSample(bin, prop string, seed uint64, thorough bool) *RunReport {
 	g.BadBias, g.Human = 4, 0
 	g.W["list"], g.W["show"], g.W["where"], g.W["prune_dry"], g.W["init"], g.W["file"] = 0, 0, 0, 0, 0, 1
 	g.W["new_task"] = 30
-	if rng.Chance(1, 2) {
+	if rng.Chance(1, 2) || prop == "C13" && rng.Chance(1, 2) {
 		// multi-byte and control characters in what writers write: a reader or
 		// a short write may stop in the middle of one
 		g.Text = "unicode"
@@ -1241,6 +1246,9 @@ func runConcSample(bin, prop string, seed uint64, thorough bool) *RunReport {
 		p := r.W.RunOne(r.spec(literal(cmds[a], r.M)))
 		r.W.Amb = amb
 		k := p.NVis
+		if amb.ShortWriteDen > 0 && !cmds[a].IsRead() {
+			k += 4 // short writes split an append into several calls: sweep those too
+		}
 		for i := 0; i <= k; i++ {
 			plans = append(plans, schedPlan{strategy: "preempt", seed: rng.Uint64(), a: a, k: i})
 			if a == sweepers[0] && len(cmds) > 2 {
